@@ -95,6 +95,9 @@ enum Leaf {
     I32Eqz,
     /// entry of `UNOPS`
     Unop(usize),
+    /// `select (result i64)`
+    SelectI64,
+    V128Const(u128),
     /// load from memory `.0` (of three), shape `.1`: 0 = i32.load8_u with
     /// all-zero immediates, 1 = i32.load align 4 offset 16, 2 = i32.load16_s
     /// align 1 offset 0
@@ -147,6 +150,20 @@ impl<'a, 'b> Gen<'a, 'b> {
             self.budget -= 1;
             let l = |g: &mut Self| -> usize { *g.ch.pick(&g.i32_locals) };
             match self.ch.below(19) {
+                18 if self.ch.chance(1, 3) => {
+                    if self.ch.bool() {
+                        out.push(Node::Leaf(Leaf::I64Const(self.ch.u64() as i64)));
+                        out.push(Node::Leaf(Leaf::I64Const(self.ch.u64() as i64)));
+                        out.push(Node::Leaf(Leaf::I32Const(*self.ch.pick(crate::ch::I32_POOL))));
+                        out.push(Node::Leaf(Leaf::SelectI64));
+                    } else {
+                        // every lane pattern, the sign bit included
+                        let v = ((self.ch.u64() as u128) << 64) | self.ch.u64() as u128;
+                        let v = if self.ch.bool() { v | 1 << 127 } else { v };
+                        out.push(Node::Leaf(Leaf::V128Const(v)));
+                    }
+                    out.push(Node::Leaf(Leaf::Drop));
+                }
                 17 if self.ch.chance(1, 2) => {
                     let (m, shape) = (self.ch.below(3), self.ch.below(3) as u8);
                     out.push(Node::Leaf(Leaf::I32Const(*self.ch.pick(crate::ch::I32_POOL))));
@@ -331,6 +348,7 @@ pub enum Exp {
     OpenSig(&'static str, usize, usize),
     /// memory access: (name, log2 of the alignment, offset, memory index)
     Mem(&'static str, u8, u64, u32),
+    ConstV128(u128),
 }
 
 /// `targets_result`: for every enclosing sequence (innermost last) whether a
@@ -351,6 +369,8 @@ fn flatten(nodes: &[Node], stack: &mut Vec<bool>, out: &mut Vec<Exp>, base: usiz
                 Leaf::I32Add => out.push(Exp::Op("I32Add")),
                 Leaf::I32Eqz => out.push(Exp::Op("I32Eqz")),
                 Leaf::Unop(k) => out.push(Exp::Op(unops()[*k].1)),
+                Leaf::SelectI64 => out.push(Exp::Op("TypedSelect")),
+                Leaf::V128Const(v) => out.push(Exp::ConstV128(*v)),
                 Leaf::Load(m, shape) => out.push(match shape {
                     0 => Exp::Mem("I32Load8U", 0, 0, *m as u32),
                     1 => Exp::Mem("I32Load", 2, 16, *m as u32),
@@ -615,6 +635,20 @@ impl<'a, 'b> Plan<'a, 'b> {
                                 b.unop_at(pos, UnaryOp::I32Eqz);
                             } else {
                                 b.unop(UnaryOp::I32Eqz);
+                            }
+                        }
+                        Leaf::SelectI64 => {
+                            if use_at {
+                                b.instr_at(pos, Select { ty: Some(ValType::I64) });
+                            } else {
+                                b.select(Some(ValType::I64));
+                            }
+                        }
+                        Leaf::V128Const(v) => {
+                            if use_at {
+                                b.const_at(pos, Value::V128(*v));
+                            } else {
+                                b.const_(Value::V128(*v));
                             }
                         }
                         Leaf::Load(m, shape) => {
@@ -1054,6 +1088,11 @@ pub fn check(_ctx: &Ctx, input: &Input) -> CaseResult {
                     return Err(bad("constant"));
                 }
             }
+            Exp::ConstV128(v) => {
+                if o.name != "V128Const" || o.imms != vec![Imm::V128(v.to_le_bytes())] {
+                    return Err(bad("constant"));
+                }
+            }
             Exp::Mem(n, align, offset, memory) => {
                 if o.name != *n {
                     return Err(bad("operator"));
@@ -1190,6 +1229,7 @@ fn same_shape(o: &crate::ops::Op, e: &Exp) -> bool {
         Exp::Const(_) => o.name == "I32Const",
         Exp::Const64(_) => o.name == "I64Const",
         Exp::ConstF32(_) => o.name == "F32Const",
+        Exp::ConstV128(_) => o.name == "V128Const",
         Exp::BrTable(..) => o.name == "BrTable",
     }
 }
